@@ -220,7 +220,22 @@ func perturbNear(t *rapid.T, doc val.V, h ref.Hunk) (val.V, string, bool) {
 		l[pos] = freshScalar(t)
 		return true
 	}
-	switch gen.Int(t, "nearOp", 0, 9) {
+	switch gen.Int(t, "nearOp", 0, 11) {
+	case 10, 11:
+		// the array replaced by an object (or null) that mimics it
+		how = "array-becomes-object"
+		var repl val.V
+		if gen.Chance(t, "null", 25) {
+			repl, how = nil, "array-becomes-null"
+		} else {
+			o := map[string]val.V{}
+			for k, e := range l {
+				o[fmt.Sprint(k)] = e
+			}
+			repl = o
+		}
+		nd, ok := gen.SetAt(doc, steps, repl)
+		return nd, how, ok
 	case 0:
 		how = "change-before"
 		if !set(i - 1) {
